@@ -33,6 +33,11 @@ FUNCTIONS = [
     'delete_allocations', 'placement.objects.usage.*',
     'placement.objects.allocation.get_all_by_consumer_id/'
     'get_all_by_resource_provider', 'placement.objects.inventory.*',
+    'placement.handlers.allocation.set_allocations (POST)',
+    'placement.handlers.inventory.delete_inventories',
+    'placement.handlers.trait.delete_traits_for_resource_provider',
+    'placement.handlers.resource_provider.create_resource_provider/'
+    'update_resource_provider/delete_resource_provider',
 ]
 
 
@@ -1163,11 +1168,14 @@ def tv_post(tier):
 if __name__ == '__main__':
     sys.exit(runner.run_check(
         'C11', families, functions=FUNCTIONS, post=tv_post,
-        assumptions=['routes claimed: the read and write routes listed in '
-                     'FUNCTIONS; other routes (resource class / trait '
-                     'catalogue, reshaper, POST allocations, provider '
-                     'create/update/delete) are covered by C04/C08/C09/C10/'
-                     'C12/C19 for their own clauses and are NOT claimed here',
+        assumptions=['routes claimed: the read routes of READS and the write '
+                     'routes of WRITES (PUT/POST/DELETE allocations incl. '
+                     'the 1.0-1.27 formats, PUT/POST/DELETE inventories, '
+                     'PUT/DELETE traits, PUT aggregates, POST/PUT/DELETE '
+                     'resource_providers); the resource class / trait '
+                     'catalogue and the reshaper are covered by C01/C04/C08/'
+                     'C10/C12/C19 for their own clauses and are NOT claimed '
+                     'here',
                      'pre-state valid: allocation => inventory, consumer <=> '
                      'allocations'],
         quick_budget=170, thorough_budget=1700))
